@@ -247,11 +247,28 @@ def mk_lin(base, k, ty):
     return Sym(("lin", base, k), ty)
 
 
+def discr_allowed(st, name):
+    """Discriminant values an enum atom may still have (see Machine.rvalue 'discriminant')."""
+    return st.facts.get(("dset", name)) or tuple(d for _, d in st.facts[("dmap", name)])
+
+
+CMP = {"Eq": lambda x, y: x == y, "Ne": lambda x, y: x != y, "Lt": lambda x, y: x < y, "Le": lambda x, y: x <= y, "Gt": lambda x, y: x > y, "Ge": lambda x, y: x >= y}
+
+
 def compare(st, op, a, b, world=None):
     """Abstract comparison of two scalar values; returns a python bool (may Fork)."""
     if isinstance(a, I) and isinstance(b, I):
         x, y = a.v, b.v
         return {"Eq": x == y, "Ne": x != y, "Lt": x < y, "Le": x <= y, "Gt": x > y, "Ge": x >= y}[op]
+    if isinstance(a, Sym) and isinstance(b, I) and isinstance(a.name, tuple) and a.name and a.name[0] == "discr" and ("dmap", a.name[1]) in st.facts:
+        allowed = discr_allowed(st, a.name[1])
+        yes = tuple(x for x in allowed if CMP[op](x, b.v))
+        no = tuple(x for x in allowed if not CMP[op](x, b.v))
+        if not yes or not no:
+            return bool(yes)
+        ans = st.choose(("dcmp", a.name[1], allowed, op, b.v), [True, False])
+        st.facts[("dset", a.name[1])] = yes if ans else no
+        return ans
     if isinstance(a, Sym) and isinstance(b, I):
         base, k = lin_parts(a)
         if world is not None:
@@ -695,6 +712,10 @@ class Machine:
         variants = self.world.enum_variants(v.ty)
         opts = [x["idx"] for x in variants]
         opts = self.world.restrict_variants(st, v, opts) if hasattr(self.world, "restrict_variants") else opts
+        if ("dmap", v.name) in st.facts:
+            allowed = discr_allowed(st, v.name)
+            d_of = dict(st.facts[("dmap", v.name)])
+            opts = [i for i in opts if d_of.get(i) in allowed]
         idx = st.choose(("val", v.name), opts)
         nf = len(variants[idx]["fields"])
         fields = tuple(self.world.fresh_field(st, v, idx, i, variants[idx]["fields"][i]["ty"]) for i in range(nf))
@@ -790,6 +811,13 @@ class Machine:
                 from . import models as _models
 
                 v = _models.coerce_try_output(v, rv.get("ty", ""))
+            if isinstance(v, Sym) and getattr(self.world, "lazy_discriminant", False) and ("val", v.name) not in st.facts and len(rv.get("variants") or ()) > 2:
+                # a field-less enum of unknown variant: keep the discriminant symbolic; switches and
+                # comparisons split it by outcome (not by variant) and narrow the set of possible values
+                vs = self.world.enum_variants(v.ty)
+                if all(not x["fields"] for x in vs):
+                    st.facts.setdefault(("dmap", v.name), tuple((idx, discr) for idx, discr, _ in rv["variants"]))
+                    return Sym(("discr", v.name), "isize")
             if isinstance(v, Sym):
                 v = self.concretize(st, v)
             if isinstance(v, Adt):
@@ -942,6 +970,7 @@ class Machine:
     # ------------------------------------------------------------ stepping
     def run(self, st, keep_frames=False, max_paths=200000):
         """Explore all paths from `st`. Returns the list of outcomes."""
+        max_paths = getattr(self, "max_paths", max_paths)
         outs = []
         work = [st]
         while work:
@@ -965,6 +994,7 @@ class Machine:
                     outs.append(res)
                     break
                 if len(outs) + len(work) > max_paths:
+                    self.last_outs = outs
                     raise AnalysisError("path explosion (> %d paths)" % max_paths)
         return outs
 
@@ -1097,6 +1127,16 @@ class Machine:
                 if v == d.v:
                     return bb
             return t["otherwise"]
+        if isinstance(d, Sym) and isinstance(d.name, tuple) and d.name and d.name[0] == "discr" and ("dmap", d.name[1]) in st.facts:
+            allowed = discr_allowed(st, d.name[1])
+            tmap = {v: bb for v, bb in t["targets"]}
+            groups = {}
+            for x in allowed:
+                groups.setdefault(tmap.get(x, t["otherwise"]), []).append(x)
+            bbs = sorted(groups)
+            bb = bbs[0] if len(bbs) == 1 else st.choose(("dsw", d.name[1], allowed, tuple(bbs)), bbs)
+            st.facts[("dset", d.name[1])] = tuple(groups[bb])
+            return bb
         if isinstance(d, Sym):
             if d.ty == "bool":
                 b = self.truth(st, d)
@@ -1131,6 +1171,14 @@ class Machine:
                 r = h(self, st, callee, args, t)
         if r is None or r is INLINE:
             body = self.prog.callee_body(callee)
+            if callee.get("trait") == "core::iter::traits::iterator::Iterator" and callee["name"] != "next" and args and (body is None or body.ext):
+                # a provided Iterator method on one of the machine's abstract iterators: run the trait's own
+                # default body (a loop around next()), not the adaptor's specialised override
+                from . import models as _models
+
+                d = self.prog.bodies.get("core::iter::traits::iterator::Iterator::" + callee["name"])
+                if d is not None and d.ext and (body is None or d.key != body.key) and _models._known_iter(self, st, args[0]) and self.ext_simple(d.key):
+                    body = d
             if body is not None and body.ext and not self.ext_simple(body.key):
                 body = None  # an exported std body that is not plain MIR: needs a model
             if body is None:
